@@ -11,10 +11,12 @@
      (ssock VIA (nCONN xDATA PF) (SOP..) (nCONN xDATA PF) (SOP..))
                                                       GetSocket, dirty calls, Close, GetSocket, later
      (sctx  VIA (nSESS ((xK xV)..)) (COP..) (COP..))  getContext, dirty ops, putContext, getContext, later
+     (scopy VIA ((sa|sb HOP)..))                      two containers, calls and CopyTo in both directions;
+                                                      observation after each call: ((A pairs) (B pairs))
    observations = the flat list of everything the later calls returned. *)
 From Coq Require Import Strings.String Strings.Byte.
 From Coq Require Import List Arith NArith ZArith Bool Lia.
-From Verif Require Import Base.Bytes Base.Val Model.Pools.
+From Verif Require Import Base.Bytes Base.Val Model.Pools Model.PoolsAlias.
 Import ListNotations.
 
 (* growth policy used when the model is run; by C20_*_ops_commute_with_abs no observation
@@ -214,8 +216,36 @@ Definition dec_conn (v : val) : option (N * bytes * option N) :=
   | _ => None
   end.
 
+Definition dec_hop (v : val) : option hop :=
+  match v with
+  | VL [s; VB k; VB x] =>
+      if sym_eqb s "add" then Some (HAdd k x) else if sym_eqb s "set" then Some (HSet k x) else None
+  | VL [s; VB k] => if sym_eqb s "del" then Some (HDel k) else None
+  | VL [s; VL l] => if sym_eqb s "refill" then option_map HRefill (dec_list dec_kv l) else None
+  | VL [s] =>
+      if sym_eqb s "reset" then Some HReset else if sym_eqb s "copy" then Some HCopyFromOther else None
+  | _ => None
+  end.
+
+Definition dec_sided (v : val) : option (side * hop) :=
+  match v with
+  | VL [s; o] =>
+      match dec_hop o with
+      | Some h => if sym_eqb s "a" then Some (SA, h) else if sym_eqb s "b" then Some (SB, h) else None
+      | None => None
+      end
+  | _ => None
+  end.
+
 Definition run (inp : val) : option val :=
   match inp with
+  | VL [kind; _; VL l] =>
+      if sym_eqb kind "copy" then
+        match dec_list dec_sided l with
+        | Some ops => Some (VL (snd (wrun gpol false world_empty ops)))
+        | None => None
+        end
+      else None
   | VL [kind; _; VL d; VL l] =>
       if sym_eqb kind "args" then
         match dec_list dec_aop d, dec_list dec_aop l with
